@@ -34,6 +34,7 @@ def _instance(rng, i):
     miss = rng.choice(["none"] * 6 + ["scale_vector", "scale_input", "w_input", "no_bias", "add_before_mul", "commuted_mul"]
                       + (["pads_absent", "pads_nonzero"] if kind == "AffineConv" else []))
     inst["miss"] = miss
+    inst["xs"] = [max(x, (k - 1) * d + 1) for x, k, d in zip(inst["xs"], inst["kernel"], inst["dil"] or [1] * n)]      # the dilated kernel must fit
     if miss == "scale_vector":          # a genuine per-channel vector needs >= 2 channels
         inst["cpg"] = 2
         inst["M"] = 2 * g
